@@ -46,3 +46,28 @@ harness! { fn block_header_short_source() {
     }
     nd_cover!(len == 2, "two bytes");
 } }
+
+// ------------------------------------------------------------------------------------------------ C05
+/// S9 stub body: the guard that stands in for decode_literals
+pub(crate) fn guard_decode_literals(section: &LiteralsSection) -> Result<u32, crate::decoding::errors::DecompressLiteralsError> {
+    nd::set_ghost(5, 1);
+    assert!(section.regenerated_size <= MAX_BLOCK_SIZE, "a literals section regenerating more than 128 KiB reaches the literal decoder");
+    nd_cover!(section.regenerated_size == MAX_BLOCK_SIZE, "largest legal literals section reaches the literal decoder");
+    nd_cover!(section.compressed_size.is_some(), "a compressed literals section reaches the literal decoder");
+    nd::stop()
+}
+
+// C05/C03: whatever the 8 bytes of a compressed block's content are, the literal decoder is never asked to regenerate
+// more than one maximum block (all four literal types, all size formats incl. the 20-bit raw/RLE and 18-bit forms).
+harness! { fn c05_literals_regenerated_size_capped() {
+    nd::stubs(nd::S9_DECODE_LITERALS_GUARD);
+    nd::set_ghost(5, 0);
+    let content: [u8; 8] = nd::any();
+    let mut ws = DecoderScratch::new(1024);
+    let mut d = new();
+    let hdr = BlockHeader { last_block: true, block_type: BlockType::Compressed, decompressed_size: 0, content_size: 8 };
+    let r = d.decompress_block(&hdr, &mut ws, &content[..]);
+    nd_cover!(nd::ghost(5) == 0, "some header is rejected before the literal decoder");
+    match r { Ok(()) => {}, Err(e) => core::mem::forget(e) }
+    core::mem::forget(ws);
+} }
